@@ -636,10 +636,10 @@ OPEN_WITNESSES: Dict[str, str] = {}
 _reported_open = set()
 
 # One defect usually fails many generated programs.  core.finish prints the five smallest failing cases; so that several
-# defects with different symptoms all show up there, at most MAX_PER_SYMPTOM failing inputs per symptom are handed on
+# defects with different symptoms all show up there, at most MAX_PER_SYMPTOM failing input(s) per symptom are handed on
 # (the first ones met: the corpus runs first), the rest are counted in the histogram "failing_inputs_not_listed".
 # Cases recorded in KNOWN_FINDINGS.txt are never held back and never use up a slot.
-MAX_PER_SYMPTOM = 2
+MAX_PER_SYMPTOM = 1
 _symptom_count: Dict[str, int] = {}
 _known_keys: Dict[str, Any] = {}
 
